@@ -365,6 +365,9 @@ impl Ctx<'_> {
             Kind::Read => self.read(op.slot, seq, "Read"),
             Kind::Logger => {
                 LOG_MODE.store(op.which as u8, Ordering::Relaxed);
+                if op.which as u8 == faults::LOG_DISABLED {
+                    faults::LOG_DISABLED_SETS.fetch_add(1, Ordering::Relaxed);
+                }
             }
             Kind::Level => {
                 log::set_max_level(faults::level_of(op.which));
